@@ -285,4 +285,88 @@ theorem hard_link_leaves_other_names (a : LArchive) (hns : NoSym a) (n t n' : St
     exact resolve_mono a _ _ b h
 
 
+theorem append_leaves_other_names (a : LArchive) (hns : NoSym a) (x : String × Member) (n' : String) (b : Blob)
+    (hne : (x.1 == n') = false) (h : readL a n' = some b) : readL (a ++ [x]) n' = some b := by
+  obtain ⟨n, m⟩ := x
+  unfold readL at h ⊢
+  rw [findLatest_append_other a n n' _ hne]
+  cases hf : findLatest a a.length n' with
+  | none => rw [hf] at h; cases h
+  | some p =>
+    obtain ⟨j, m'⟩ := p
+    rw [hf] at h
+    obtain ⟨h1, _, nm, hmem⟩ := findLatest_bounds hf
+    simp only [Option.bind_some, List.length_append, List.length_singleton] at h ⊢
+    rw [resolve_append a _ hns _ j m' (by omega) (hns _ hmem)]
+    exact resolve_mono a _ _ b h
+
+theorem append_data_reads (a : LArchive) (n : String) (b : Blob) : readL (a ++ [(n, Member.data b)]) n = some b := by
+  unfold readL
+  rw [findLatest_append_self]
+  simp [resolve]
+
+theorem noSym_append {a : LArchive} (hns : NoSym a) (x : String × Member) (hx : ∀ t, x.2 ≠ Member.sym t) : NoSym (a ++ [x]) := by
+  intro e he t
+  rcases List.mem_append.mp he with h | h
+  · exact hns e h t
+  · simp at h; subst h; exact hx t
+
+structure PackInv (content : Nat → Blob) (st : LArchive × List (Nat × String)) (done : List (String × Nat)) : Prop where
+  noSym : NoSym st.1
+  reads : ∀ f ∈ done, readL st.1 f.1 = some (content f.2)
+  seen : ∀ s ∈ st.2, ∃ f ∈ done, f.1 = s.2 ∧ f.2 = s.1
+
+theorem packStep_inv (content : Nat → Blob) (st : LArchive × List (Nat × String)) (done : List (String × Nat)) (f : String × Nat)
+    (inv : PackInv content st done) (hnew : ∀ g ∈ done, (f.1 == g.1) = false) :
+    PackInv content (packStep content st f) (done ++ [f]) := by
+  unfold packStep
+  cases hs : st.2.find? (fun s => s.1 == f.2) with
+  | some s =>
+    dsimp only
+    have hmem := List.mem_of_find?_eq_some hs
+    have hino : s.1 = f.2 := by simpa using List.find?_some hs
+    obtain ⟨g, hg, hg1, hg2⟩ := inv.seen s hmem
+    refine ⟨noSym_append inv.noSym _ (by intro t h; cases h), ?_, ?_⟩
+    · intro h hh
+      rcases List.mem_append.mp hh with hh | hh
+      · exact append_leaves_other_names _ inv.noSym _ _ _ (hnew h hh) (inv.reads h hh)
+      · simp at hh; subst hh
+        rw [hard_link_reads_its_target _ inv.noSym, ← hg1, inv.reads g hg, hg2, hino]
+    · intro s' hs'
+      obtain ⟨g', hg', e1, e2⟩ := inv.seen s' hs'
+      exact ⟨g', List.mem_append_left _ hg', e1, e2⟩
+  | none =>
+    dsimp only
+    refine ⟨noSym_append inv.noSym _ (by intro t h; cases h), ?_, ?_⟩
+    · intro h hh
+      rcases List.mem_append.mp hh with hh | hh
+      · exact append_leaves_other_names _ inv.noSym _ _ _ (hnew h hh) (inv.reads h hh)
+      · simp at hh; subst hh
+        exact append_data_reads _ _ _
+    · intro s' hs'
+      rcases List.mem_cons.mp hs' with e | hs'
+      · subst e; exact ⟨f, by simp, rfl, rfl⟩
+      · obtain ⟨g', hg', e1, e2⟩ := inv.seen s' hs'
+        exact ⟨g', List.mem_append_left _ hg', e1, e2⟩
+
+theorem pack_fold_inv (content : Nat → Blob) : ∀ (files : List (String × Nat)) (st : LArchive × List (Nat × String))
+    (done : List (String × Nat)), PackInv content st done → ((done ++ files).map (·.1)).Nodup →
+    PackInv content (files.foldl (packStep content) st) (done ++ files) := by
+  intro files
+  induction files with
+  | nil => intro st done inv _; simpa using inv
+  | cons f rest ih =>
+    intro st done inv hn
+    rw [List.foldl_cons]
+    have hnew : ∀ g ∈ done, (f.1 == g.1) = false := by
+      intro g hg
+      rw [List.map_append, List.map_cons] at hn
+      have hne : g.1 ≠ f.1 := (List.nodup_append.mp hn).2.2 g.1 (List.mem_map_of_mem hg) f.1 (by simp)
+      cases h : f.1 == g.1 with
+      | false => rfl
+      | true => exact absurd (beq_iff_eq.mp h).symm hne
+    have := ih (packStep content st f) (done ++ [f]) (packStep_inv content st done f inv hnew) (by simpa using hn)
+    simpa using this
+
+
 end Kapture.C12
